@@ -144,6 +144,13 @@ def _cancel_safe(m):
 
 
 EXTRA = _RTR + [
+    # ---- C03
+    ('chainPostPassMergesOverlap', 'src/repository/resources/chain.rs',
+     r'fn from_iter_unsorted<[\s\S]*?for j in 1\.\.res\.len\(\) \{([\s\S]*?)res\.truncate\(tail \+ 1\);',
+     lambda m: bool(re.search(r'res\[j\]\.min\(\) <= res\[tail\]\.max\(\)', m.group(1))), ['C03']),
+    ('asnCountSaturates', 'src/repository/resources/asres.rs',
+     r'impl AsRange \{[\s\S]*?pub fn asn_count\(self\) -> u32 \{([\s\S]*?)\n    \}',
+     lambda m: 'saturating' in m.group(1), ['C03', 'C04']),
     # ---- C06
     ('rtrInitialVersion', 'src/rtr/client.rs', r'const INITIAL_VERSION: u8 = (\d+);', 'nat', ['C06']),
     # ---- C08
